@@ -1425,6 +1425,7 @@ Definition apply_prim (p : prim) (args : sx) : M sx :=
       end
   | PProbe => ret Nil
   | PHostBox => ret (Any None)
+  | PHostId => '(v, _) <- req args ;; ret v
   | PHostOpt =>
       (* fn host_opt(a: i64, b: Option<i64>, rest: TulispObject) *)
       '(a, r1) <- req args ;; x <- lift (as_int a) ;;
